@@ -4,7 +4,7 @@ import pktgen
 
 SLICE = "TXTTEXT (a TXT built by TXT::try_from(&str) inside a packet, plain and compressed), BUILDW (write_to / write_compressed_to into Vec, growable cursor, fixed cursor, fixed slice) with BUILD follow-ups (the vector-returning entry points)"
 RULE = ("seeded packets x {plain, compressed} x writer configurations: Vec with and without existing content; growable cursor at "
-        "offset 0 / 2 / k over empty, shorter and longer pre-filled storage; fixed cursor and fixed slice of EVERY capacity from 0 "
+        "offset 0 / 2 / k over empty, shorter and longer pre-filled storage; a growable writer whose write() accepts only 1..5 bytes per call; fixed cursor and fixed slice of EVERY capacity from 0 "
         "to len+2 for small packets (sampled for larger ones), at offset 0 and 2. Oracle: the bytes between start and end equal the "
         "vector-returning entry point's, everything else is untouched, a writer that is too small yields an error (never a panic or "
         "a short Ok), and an independent envelope walker finds exactly the counted entries with matching RDLENGTHs and no other bytes. "
@@ -27,6 +27,8 @@ def cases(rng, tier):
             cfgs.append((m, "G", 0, b""))
             cfgs.append((m, "G", 2, b"\xaa\xbb"))
             cfgs.append((m, "G", 3, bytes([0x55]) * (L + 20)))          # longer pre-filled storage
+            cfgs.append((m, "Q", 0, b""))                                 # a writer that takes 1..5 bytes per write() call
+            cfgs.append((m, "Q", 4, bytes([0x44]) * (L // 2)))
             cfgs.append((m, "G", rng.below(8), bytes([0x66]) * rng.below(L + 1)))  # shorter pre-filled storage
             caps = range(0, L + 3) if L <= 60 else sorted({0, 1, 11, 12, 13, L - 2, L - 1, L, L + 1, L + 2, rng.below(L)})
             for cap in caps:
@@ -46,6 +48,24 @@ def cases(rng, tier):
             DESCS[c] = p
             CFG[c] = (m, kind, start, sto, t)
             out.append(c)
+    # values the parser would reject but the public fields allow (reachable by editing a parsed value): NSEC windows that are
+    # repeated or out of order, SVCB in AliasMode carrying parameters; framing must hold for whatever write_to emits
+    odd = []
+    for its in ([(0, b"\x40"), (0, b"\x00\x08")], [(1, b"\x01"), (0, b"\x40"), (1, b"\x02")], [(2, b"\xff"), (2, b"\xff"), (2, b"\xff")]):
+        odd.append(("T", "NSEC", [("N", [b"n", b"example"]), ("L", its)]))
+    for tn in ("SVCB", "HTTPS"):
+        odd.append(("T", tn, [("I", 0), ("N", [b"t", b"example"]), ("L", [(1, b"\x02h2"), (3, b"\x01\xbb")])]))
+        odd.append(("T", tn, [("I", 0), ("N", []), ("L", [(65535, b"")])]))
+    for rd in odd:
+        for tail in ([], [{"name": [b"a", b"example"], "class": 1, "ttl": 1, "cf": False, "rdata": ("T", "A", [("I", 0x01020304)])}]):
+            pk = {"id": 5, "opcode": 0, "rcode": 0, "flags": 0x8000, "opt": None, "qs": [], "nss": [], "adds": [],
+                  "ans": [{"name": [b"o", b"example"], "class": 1, "ttl": 60, "cf": False, "rdata": rd}] + tail}
+            t = dns.pkt_text(pk)
+            for (m, kind, start, sto) in (("P", "V", 0, b""), ("C", "G", 0, b""), ("P", "G", 2, b"\xaa\xbb"), ("C", "Q", 0, b"")):
+                c = "BUILDW %s %s %x %s %s" % (m, kind, start, sto.hex() or "-", t)
+                DESCS[c] = pk
+                CFG[c] = (m, kind, start, sto, t)
+                out.append(c)
     # TXT built from text (TXT::try_from(&str) keeps its own running size for len()): lengths around the chunk size, inside a packet
     lens = sorted(set([0, 1, 2, 100, 1000, 1100, 1270, 2032] + [k * m + d for k in (1, 2, 3, 4) for m in (253, 254, 255, 256) for d in (-1, 0, 1)]))
     for L in lens:
